@@ -24,6 +24,8 @@ func vBufCmp(name string) func(a, b []byte) bool {
 	switch name {
 	case "lex":
 		return func(a, b []byte) bool { return bytes.Compare(a, b) < 0 }
+	case "rlex":
+		return func(a, b []byte) bool { return bytes.Compare(a, b) > 0 }
 	case "len":
 		return func(a, b []byte) bool { return len(a) < len(b) }
 	case "first":
